@@ -550,7 +550,9 @@ def mask_clause(model, rep, funcs):
     if f is not None:
         s = norm_src(f.node)
         rep.instance("SLOT.mask", f.loc())
-        ok = Matcher(f).all_of(["img = ~img", "$d = ndi.distance_transform_edt(img)", "np.exp(-$d ** 2 / 2 / (sigma / scale) ** 2, ...)"])[0]
+        MGS = Matcher(f)
+        ok = MGS.all_of(["img = ~img", "$d = ndi.distance_transform_edt(img)", "np.exp(-$d ** 2 / 2 / (sigma / scale) ** 2, ...)"])[0] or \
+            MGS.all_of(["$d = ndi.distance_transform_edt(~img)", "np.exp(-$d ** 2 / 2 / (sigma / scale) ** 2, ...)"])[0]
         rep.ob("SLOT", f.anchor, "gaussian_smooth = exp(-d^2 / (2 (sigma/scale)^2)) of the distance to the mask (values in (0, 1], 1 on the mask)", ok, "", node=f.node,
                fn=f, clause="6 masks", stmt="def gaussian_smooth")
     f = funcs.get("acryo/pipe/_masking.py::_get_structure")
